@@ -57,6 +57,14 @@ def swap_names(text, a, b, quoted=False):
 STRING_BODIES = ['%s\\"', '\\"%s', 'a\\"%s\\\\', '%s\\\\', "%s'", '\\"', "'%s'", "''", "'", " %s ", "%s#", "//%s", "/*%s*/", "", "%s\t%s", "\t", "0", "None"]
 
 
+def number_twin(text):
+    """the same description with the decimal integer values of extension / signal fields zero-padded (016 is 16), or None"""
+    import re
+    pat = re.compile(r'(\b[a-z_]+[ \t]*:[ \t]*-?)([1-9][0-9]*)([ \t]*,)')
+    out, n = pat.subn(lambda m: m.group(1) + "0" * (1 + len(m.group(2)) % 2) + m.group(2) + m.group(3), text)
+    return out if n else None
+
+
 def string_twin(text, exp, k):
     """(text', tree', literal) with one quoted literal of the text (not the version) replaced, or None"""
     import re
@@ -313,6 +321,18 @@ def run_c07(tier, seed):
                     chk.violation("parser.get_fcp:differs-from-string-entry:string-contents",
                                   {"mode": "G", "text": tw[0], "literal": tw[2], "status": st5,
                                    "observed": got5 if st5 != "ok" else first_diff(tw[1], got5)})
+        if ci % 4 == 1:
+            nt = number_twin(c["text"])
+            if nt:
+                st6, got6 = parse_text(nt)
+                chk.count(1, traces=1)
+                if st6 != "ok":
+                    chk.violation("parser:%s-on-well-formed-text:zero-padded-integers" % st6, {"mode": "G", "text": nt, "observed": got6})
+                else:
+                    d6 = first_diff(exp, got6)
+                    if d6:
+                        chk.violation("parser:tree-differs:zero-padded-integers:%s" % diff_class(d6),
+                                      {"mode": "G", "text": nt, "at": d6[0], "expected": d6[1], "observed": d6[2]})
         if ci % 10 == 0:
             st2, got2 = parse_file(c["text"], chk.workdir)
             chk.count(1, traces=1)
